@@ -222,7 +222,8 @@ def emit_operands(T, namespace, path, note):
               "Function", "FunctionEnd", "FunctionParameter", "Label", "Line", "NoLine", "Return", "ReturnValue", "Nop",
               "DecorationGroup", "TypeForwardPointer", "TypePointer", "TypeOpaque", "TypeVoid", "TypeBool", "TypeVector",
               "TypeFunction", "TypeStruct", "TypeArray", "TypeMatrix", "ConstantComposite", "ConstantTrue", "ConstantFalse",
-              "Phi", "Branch", "BranchConditional", "Kill", "Unreachable"):
+              "Phi", "Branch", "BranchConditional", "Kill", "Unreachable", "ConstantSampler", "ConstantNull",
+              "ConstantCompositeContinuedINTEL", "SpecConstantCompositeContinuedINTEL"):
         f.raw(f"def op_{o} : Nat := {opv[o]}")
 
     def elem(item, v, m):
@@ -457,4 +458,42 @@ def emit_disas(T, namespace, path, note):
     f.list_def("maskNames", "Nat × List (Nat × Nat)", rows)
     f.list_def("forwarded", "Nat", [str(vnames.index(v)) for v in fwd])
     f.list_def("idDispatch", "Nat", [str(vnames.index(v)) for v in ids])
+    return write_if_changed(path, f.text())
+
+
+MODES = {"req": 0, "opt": 1, "list": 2, "pairs": 3}
+TRANSFORMS = {"copy": 0, "clone": 1, "type_token": 2, "const_token": 3, "member": 4, "jump": 5, "with_rest_ids": 6}
+
+
+def emit_lift(T, namespace, path, note):
+    """lift/autogen_context.rs arms + the field declarations of the sr enums/structs"""
+    R, decls = T["lift"]
+    vix = {v: i for i, (v, _) in enumerate(T["operand_enum"])}
+    f = LeanFile(namespace, ["Rspirv.Model.Lift"], note)
+    f.raw("open Rspirv Rspirv.Model")
+
+    def field(x):
+        vs = "[" + ", ".join(str(vix[v]) for v in x["variants"]) + "]"
+        ts = "[" + ", ".join(str(TRANSFORMS[t]) for t in x["transforms"]) + "]"
+        return f"⟨{nc(x['name'])}, {MODES[x['mode']]}, {vs}, {ts}⟩"
+
+    def arm(a):
+        return f"⟨{a['opcode']}, {nc(a['ctor'].split('::')[-1])}, [" + ", ".join(field(x) for x in a["fields"]) + "]⟩"
+    for key, name in (("lift_branch", "branchArms"), ("lift_terminator", "terminatorArms"), ("lift_op", "opArms"), ("lift_type", "typeArms")):
+        f.list_def(name, "LArm", [arm(a) for a in R[key]])
+    f.list_def("singleArms", "LArm", [arm(a) for a in R["single"].values()])
+    for fn, nm in (("lift_capability", "capabilityArm"), ("lift_memory_model", "memoryModelArm"), ("lift_function", "functionArm")):
+        if fn in R["single"]:
+            f.raw(f"def {nm} : Option LArm := some {arm(R['single'][fn])}")
+        else:
+            f.raw(f"def {nm} : Option LArm := none")
+
+    def decl(items):
+        # tuple variants (`Terminator::Branch(Branch)`) have no generated arm of their own
+        return [f"({nc(v)}, [" + ", ".join(nc(fn_) for fn_, _ in fs) + "])" for v, fs in items if fs is not None]
+    f.list_def("opDecl", "Nat × List Nat", decl(decls["Op"]))
+    f.list_def("branchDecl", "Nat × List Nat", decl(decls["Branch"]))
+    f.list_def("terminatorDecl", "Nat × List Nat", decl(decls["Terminator"]))
+    f.list_def("typeDecl", "Nat × List Nat", decl(decls["Type"]))
+    f.list_def("structDecl", "Nat × List Nat", decl(list(decls["structs"].items())))
     return write_if_changed(path, f.text())
